@@ -65,7 +65,7 @@ FinOK == /\ cost = [i \in Nodes |-> Fin.cost[i]] /\ pred = [i \in Nodes |-> Fin.
              ELSE plab = [i \in Nodes |-> Fin.plab[i]])
 
 \* ------------------------------------------------------------------ layer P
-K == INSTANCE Knn WITH N <- N, MaxW <- 0, MaxK <- 0, W <- [pr \in {q \in Nodes \X Nodes : q[1] < q[2]} |-> Tr.Wd[pr[1]][pr[2]]], k <- Tr.k
+K == INSTANCE Knn WITH N <- N, MaxW <- 0, MaxK <- 0, Directed <- TRUE, W <- [pr \in {q \in Nodes \X Nodes : q[1] # q[2]} |-> Tr.Wd[pr[1]][pr[2]]], k <- Tr.k
 Dd(a, c) == IF a = c THEN 0 ELSE Tr.Wd[a][c]
 IdsOK == /\ \A i \in Nodes : SeqSet(Tr.adj0[i]) \subseteq Nodes /\ SeqSet(Tr.adj[i]) \subseteq Nodes
          /\ \A i \in Nodes : pred[i] \in Nodes \cup {NIL} /\ root[i] \in Nodes
